@@ -65,17 +65,6 @@ Proof.
       * auto.
 Qed.
 
-Lemma roots_set_nth v (x : option nat) (l : list (option nat)) (r : nat) :
-  In r (flat_map (fun v => match v with Some a => [a] | None => [] end) (set_nth v x l)) ->
-  In r (flat_map (fun v => match v with Some a => [a] | None => [] end) l) \/ x = Some r.
-Proof.
-  revert v. induction l as [|y l IH]; intros v; [destruct v; simpl; tauto|].
-  destruct v as [|v]; simpl.
-  - rewrite !in_app_iff. intros [Hx|Hr]; auto. destruct x as [a|]; simpl in Hx; [|tauto].
-    destruct Hx as [->|[]]. auto.
-  - rewrite !in_app_iff. intros [Hy|Hr]; auto. destruct (IH _ Hr); auto.
-Qed.
-
 (* a state s2 reached from s by a raw step: old cells kept, new cells only point at new cells or at what was
    reachable, every root is an old root or a new address *)
 Record evolves (s s2 : st) : Prop := {
@@ -126,11 +115,12 @@ Proof. intros Hh Hv. unfold reach, roots. now rewrite Hh, Hv. Qed.
 Section Evolve.
   Variable H : pystr -> pystr.
   Variable ct : ctable.
+  Variable late : st -> nat -> bool.
 
-  (* one construction on a state with the heap and variables of s, bound to a variable *)
-  Lemma alloc_evolves s s1 c o ps ks s' a dst : Inv0 s1 -> heap s1 = heap s -> vars s1 = vars s ->
+  (* one construction on a state with the heap and variables of s *)
+  Lemma alloc_evolves0 s s1 c o ps ks s' a : Inv0 s1 -> heap s1 = heap s -> vars s1 = vars s ->
     (forall k, In k (flat_map (fun k => snd (snd k)) ks) -> k < length (heap s) /\ reach s k) ->
-    alloc H ct s1 c o ps ks = Some (s', a) -> evolves s (set_var s' dst (Some a)).
+    alloc H ct s1 c o ps ks = Some (s', a) -> evolves s s'.
   Proof.
     intros Hs1 Hh Hv Hk Ea.
     assert (Hs' : Inv0 s') by (eapply alloc_inv; eauto; intros k Hin; rewrite Hh; apply Hk; auto).
@@ -141,9 +131,24 @@ Section Evolve.
       rewrite nth_error_app2 in Hc by auto. destruct (y - length (heap s)) as [|m]; simpl in Hc.
       + injection Hc as <-. unfold all_kids in Hin; simpl in Hin. apply Hk; auto.
       + destruct m; discriminate.
-    - intros r Hr Hlt. unfold roots in Hr; simpl in Hr. apply roots_set_nth in Hr as [Hr|E].
-      + unfold roots. now rewrite <- Hv.
-      + injection E as <-. rewrite Hh in Hlt. lia.
+    - intros r Hr Hlt. unfold roots in *; simpl in Hr. now rewrite <- Hv.
+  Qed.
+
+  (* binding a new node to a variable *)
+  Lemma evolves_bind s s' dst a : evolves s s' -> length (heap s) <= a -> evolves s (set_var s' dst (Some a)).
+  Proof.
+    intros [Hh Hwf Hnew Hroots] Ha. constructor; simpl; auto.
+    intros r Hr Hlt. unfold roots in Hr; simpl in Hr. apply roots_set_nth in Hr as [Hr|E].
+    - apply Hroots; auto.
+    - injection E as <-. lia.
+  Qed.
+
+  Lemma alloc_evolves s s1 c o ps ks s' a dst : Inv0 s1 -> heap s1 = heap s -> vars s1 = vars s ->
+    (forall k, In k (flat_map (fun k => snd (snd k)) ks) -> k < length (heap s) /\ reach s k) ->
+    alloc H ct s1 c o ps ks = Some (s', a) -> evolves s (set_var s' dst (Some a)).
+  Proof.
+    intros Hs1 Hh Hv Hk Ea. apply evolves_bind; [eapply alloc_evolves0; eauto|].
+    apply alloc_shape in Ea as [i [_ [-> _]]]. rewrite Hh. lia.
   Qed.
 
   Lemma resolved_kids_reach s ls l : mapO (resolve s) ls = Some l ->
@@ -191,71 +196,72 @@ Section Evolve.
   Proof. intro Hs. apply same_heap_evolves; auto. now apply inv_wf. Qed.
 
   Lemma dc_replace_evolves s s1 a ch s' r dst : Inv0 s -> Inv0 s1 -> heap s1 = heap s -> vars s1 = vars s ->
-    reach s a -> changes_reach s ch -> dc_replace H ct s1 a ch = (s', r) ->
-    evolves s (fst (bind dst (s', r))).
+    reach s a -> changes_reach s ch -> dc_replace H ct late s1 a ch = (s', r) ->
+    evolves s s' /\ evolves s (fst (bind dst (s', r))).
   Proof.
     intros Hs Hs1 Hh Hv Hra Hch. unfold dc_replace.
     assert (Hsame : evolves s s1).
     { apply same_heap_evolves; auto; [now apply inv_wf|]. intros r0. unfold roots. now rewrite Hv. }
-    destruct (cell_at s1 a) as [c|] eqn:Ec; [|intros [= <- <-]; exact Hsame].
-    destruct (dc_check _ _ _); [intros [= <- <-]; exact Hsame|].
-    destruct (alloc _ _ _ _ _ _ _) as [[s2 a2]|] eqn:Ea; intros [= <- <-]; [|exact Hsame]. simpl.
-    eapply alloc_evolves; eauto. unfold cell_at in Ec. rewrite Hh in Ec.
-    eapply new_kids_reach; eauto.
+    destruct (cell_at s1 a) as [c|] eqn:Ec; [|intros [= <- <-]; split; exact Hsame].
+    destruct (dc_check _ _ _); [intros [= <- <-]; split; exact Hsame|].
+    assert (Hk : forall k, In k (flat_map (fun k => snd (snd k)) (new_kids c ch)) -> k < length (heap s) /\ reach s k).
+    { unfold cell_at in Ec. rewrite Hh in Ec. eapply new_kids_reach; eauto. }
+    destruct (construct _ _ _ _ _ _ _ _) as [s2 a2|s2|] eqn:Eco; intros [= <- <-]; [| |split; exact Hsame]; simpl.
+    - apply construct_ok in Eco as [Ea _]. split; [eapply alloc_evolves0; eauto|eapply alloc_evolves; eauto].
+    - apply construct_late in Eco as [a2 [Ea _]]. split; eapply alloc_evolves0; eauto.
   Qed.
 End Evolve.
 
 Section Evolve2.
   Variable H : pystr -> pystr.
   Variable ct : ctable.
+  Variable late : st -> nat -> bool.
 
   Lemma replace_evolves s a ch dst : Inv0 s -> reach s a -> changes_reach s ch ->
-    evolves s (fst (bind dst (replace H ct true s a ch))).
+    evolves s (fst (bind dst (replace H ct late true s a ch))).
   Proof.
     intros Hs Hra Hch. unfold replace. destruct (cell_at s a) as [c|] eqn:Ec; [|simpl; now apply evolves_refl].
     pose proof (detach_self_inv s a Hs) as Hs1. destruct (detach_self_frame true s a) as [Hh [Hv _]].
-    destruct (dc_replace H ct (fst (detach_self true s a)) a ch) as [s2 r2] eqn:Ed.
-    pose proof (dc_replace_evolves H ct s _ a ch s2 r2 dst Hs Hs1 Hh Hv Hra Hch Ed) as Hev.
+    destruct (dc_replace H ct late (fst (detach_self true s a)) a ch) as [s2 r2] eqn:Ed.
+    destruct (dc_replace_evolves H ct late s _ a ch s2 r2 dst Hs Hs1 Hh Hv Hra Hch Ed) as [Hev0 Hev].
     destruct r2; try exact Hev.
-    apply dc_replace_raised in Ed. subst s2.
-    destruct (match lookup (k_id c) (reg s) with Some b => _ | None => None end); simpl; [|exact Hev].
-    apply same_heap_evolves; simpl; auto; [now apply inv_wf|]. intro r0. unfold roots; simpl. now rewrite Hv.
+    destruct (match lookup (k_id c) (reg s) with Some b => _ | None => None end); simpl; [|exact Hev0].
+    destruct Hev0 as [Eh Ewf Enew Eroots]. constructor; simpl; auto.
   Qed.
 
-  Lemma dup_evolves s a s' a' dst fuel : Inv0 s -> dup H ct fuel s a = Some (s', a') ->
-    evolves s (set_var s' dst (Some a')).
+  Lemma growR_evolves s s' : Inv0 s' -> growR s s' -> evolves s s'.
   Proof.
-    intros Hs Ed. destruct (dup_spec H ct _ _ _ _ _ Hs Ed) as [Hs' [[G Hr] Ha']].
-    destruct G as [[ext He] [_ [Hv _]]]. constructor; simpl.
+    intros Hs' [G Hr]. destruct G as [[ext He] [_ [Hv _]]]. constructor.
     - exists ext. exact He.
     - now apply inv_wf.
-    - intros y c Hy Hc k Hk Hlt. unfold cell_at in Hc; simpl in Hc.
-      assert (y < length (heap s')) by (apply nth_error_Some; congruence).
-      destruct (Hr y) as [c' [Hc' [Hkids _]]]; [lia|]. unfold cell_at in Hc'. rewrite Hc in Hc'. injection Hc' as <-.
+    - intros y c Hy Hc k Hk Hlt.
+      assert (y < length (heap s')) by (apply cell_at_lt in Hc; auto).
+      destruct (Hr y) as [c' [Hc' [Hkids _]]]; [lia|]. rewrite Hc in Hc'. injection Hc' as <-.
       apply Hkids in Hk. lia.
-    - intros r Hin Hlt. unfold roots in Hin; simpl in Hin. apply roots_set_nth in Hin as [Hin|E].
-      + unfold roots. now rewrite <- Hv.
-      + injection E as <-. lia.
+    - intros r Hin Hlt. unfold roots in *. now rewrite <- Hv.
   Qed.
 
   Lemma roots_drop s v r : In r (roots (set_var s v None)) -> In r (roots s).
   Proof. unfold roots; simpl. intro Hin. apply roots_set_nth in Hin as [Hin|E]; [auto|discriminate]. Qed.
 
-  Lemma step_raw_evolves s o : Inv0 s -> evolves s (fst (step_raw H ct true s o)).
+  Lemma step_raw_evolves s o : Inv0 s -> evolves s (fst (step_raw H ct late true s o)).
   Proof.
     intro Hs. pose proof (evolves_refl s Hs) as Hrefl.
     destruct o as [dst c og ps ks|dst src|dst src ch|dst src ch|x|x|v|x k]; simpl.
     - destruct (negb _); [exact Hrefl|]. destruct (new_args ct s c ps ks) as [| |ks'] eqn:En; try exact Hrefl.
-      destruct (alloc H ct s c og ps ks') as [[s' a]|] eqn:Ea; [|exact Hrefl]. simpl.
-      eapply alloc_evolves; eauto. eapply new_args_reach; eauto.
+      destruct (construct H ct late s c og ps ks') as [s' a|s'|] eqn:Eco; [| |exact Hrefl]; simpl.
+      + apply construct_ok in Eco as [Ea _]. eapply alloc_evolves; eauto. eapply new_args_reach; eauto.
+      + apply construct_late in Eco as [a [Ea _]]. eapply alloc_evolves0; eauto. eapply new_args_reach; eauto.
     - destruct (negb _); [exact Hrefl|]. destruct (resolve s src) as [a|]; [|exact Hrefl].
-      destruct (dup H ct (length (heap s)) s a) as [[s' a']|] eqn:Ed; [|exact Hrefl]. simpl.
-      eapply dup_evolves; eauto.
+      pose proof (dup_spec_gen H ct late (length (heap s)) s a Hs) as M.
+      destruct (dup H ct late (length (heap s)) s a) as [s' a'|s'|]; [| |exact Hrefl]; simpl.
+      + destruct M as [Hs' [G Ha']]. apply evolves_bind; [now apply growR_evolves|lia].
+      + destruct M as [Hs' G]. now apply growR_evolves.
     - destruct (negb _); [exact Hrefl|]. destruct (resolve s src) as [a|] eqn:Er; [|exact Hrefl].
       destruct (cell_at s a) as [c|] eqn:Ec; [|exact Hrefl].
       destruct (changes ct s (k_cls c) ch) as [| |ch'] eqn:Ech; try exact Hrefl.
-      destruct (dc_replace H ct s a ch') as [s' r] eqn:Ed.
-      eapply dc_replace_evolves with (s1 := s); eauto.
+      destruct (dc_replace H ct late s a ch') as [s' r] eqn:Ed.
+      eapply (dc_replace_evolves H ct late s s); eauto.
       + apply reachable_reach. eapply resolve_reachable; eauto.
       + eapply changes_are_reach; eauto.
     - destruct (negb _); [exact Hrefl|]. destruct (resolve s src) as [a|] eqn:Er; [|exact Hrefl].
@@ -274,18 +280,19 @@ Section Evolve2.
     - destruct (resolve s x); exact Hrefl.
   Qed.
 
-  Lemma dc_replace_gone s a ch s' r : dc_replace H ct s a ch = (s', r) -> gone s' = gone s.
+  Lemma dc_replace_gone s a ch s' r : dc_replace H ct late s a ch = (s', r) -> gone s' = gone s.
   Proof.
     unfold dc_replace. destruct (cell_at s a); [|intros [= <- _]; auto].
     destruct (dc_check _ _ _); [intros [= <- _]; auto|].
-    destruct (alloc _ _ _ _ _ _ _) as [[s1 a1]|] eqn:Ea; intros [= <- _]; auto.
-    apply alloc_shape in Ea as [i [_ [_ [_ ->]]]]. reflexivity.
+    destruct (construct _ _ _ _ _ _ _ _) as [s1 a1|s1|] eqn:Eco; intros [= <- _]; auto.
+    - apply construct_ok in Eco as [Ea _]. apply alloc_shape in Ea as [i [_ [_ [_ ->]]]]. reflexivity.
+    - apply construct_late in Eco as [a1 [Ea _]]. apply alloc_shape in Ea as [i [_ [_ [_ ->]]]]. reflexivity.
   Qed.
-  Lemma replace_gone s a ch s' r : replace H ct true s a ch = (s', r) -> gone s' = gone s.
+  Lemma replace_gone s a ch s' r : replace H ct late true s a ch = (s', r) -> gone s' = gone s.
   Proof.
     unfold replace. destruct (cell_at s a) as [c|]; [|intros [= <- _]; auto].
     destruct (detach_self_frame true s a) as [_ [_ Hg]].
-    destruct (dc_replace H ct (fst (detach_self true s a)) a ch) as [s2 r2] eqn:Ed.
+    destruct (dc_replace H ct late (fst (detach_self true s a)) a ch) as [s2 r2] eqn:Ed.
     apply dc_replace_gone in Ed. rewrite Hg in Ed.
     destruct r2; try (intros [= <- _]; exact Ed).
     destruct (match lookup (k_id c) (reg s) with Some b => _ | None => None end); intros [= <- _]; exact Ed.
@@ -293,21 +300,24 @@ Section Evolve2.
   Lemma bind_gone dst r : gone (fst (bind dst r)) = gone (fst r).
   Proof. destruct r as [s1 [| a | b | e | | |]]; reflexivity. Qed.
 
-  Lemma step_raw_gone s o : Inv0 s -> gone (fst (step_raw H ct true s o)) = gone s.
+  Lemma step_raw_gone s o : Inv0 s -> gone (fst (step_raw H ct late true s o)) = gone s.
   Proof.
     intro Hs. destruct o as [dst c og ps ks|dst src|dst src ch|dst src ch|x|x|v|x k]; simpl; auto.
     - destruct (negb _); auto. destruct (new_args ct s c ps ks) as [| |ks']; auto.
-      destruct (alloc H ct s c og ps ks') as [[s' a]|] eqn:Ea; auto. simpl.
-      apply alloc_shape in Ea as [i [_ [_ [_ ->]]]]. reflexivity.
+      destruct (construct H ct late s c og ps ks') as [s' a|s'|] eqn:Eco; auto; simpl.
+      + apply construct_ok in Eco as [Ea _]. apply alloc_shape in Ea as [i [_ [_ [_ ->]]]]. reflexivity.
+      + apply construct_late in Eco as [a [Ea _]]. apply alloc_shape in Ea as [i [_ [_ [_ ->]]]]. reflexivity.
     - destruct (negb _); auto. destruct (resolve s src) as [a|]; auto.
-      destruct (dup H ct (length (heap s)) s a) as [[s' a']|] eqn:Ed; auto. simpl.
-      destruct (dup_spec H ct _ _ _ _ _ Hs Ed) as [_ [[G _] _]]. apply G.
+      pose proof (dup_spec_gen H ct late (length (heap s)) s a Hs) as M.
+      destruct (dup H ct late (length (heap s)) s a) as [s' a'|s'|]; auto; simpl.
+      + destruct M as [_ [[G _] _]]. apply G.
+      + destruct M as [_ [G _]]. apply G.
     - destruct (negb _); auto. destruct (resolve s src) as [a|]; auto. destruct (cell_at s a) as [c|]; auto.
       destruct (changes ct s (k_cls c) ch) as [| |ch']; auto. rewrite bind_gone.
-      destruct (dc_replace H ct s a ch') as [s' r] eqn:Ed. simpl. eapply dc_replace_gone; eauto.
+      destruct (dc_replace H ct late s a ch') as [s' r] eqn:Ed. simpl. eapply dc_replace_gone; eauto.
     - destruct (negb _); auto. destruct (resolve s src) as [a|]; auto. destruct (cell_at s a) as [c|]; auto.
       destruct (changes ct s (k_cls c) ch) as [| |ch']; auto. rewrite bind_gone.
-      destruct (replace H ct true s a ch') as [s' r] eqn:Ed. simpl. eapply replace_gone; eauto.
+      destruct (replace H ct late true s a ch') as [s' r] eqn:Ed. simpl. eapply replace_gone; eauto.
     - destruct (resolve s x) as [a|]; auto. simpl. apply (fold_detach_frame true (tree_of s a) s).
     - destruct (resolve s x) as [a|]; auto. destruct (detach_self_frame true s a) as [_ [_ Hg]].
       destruct (detach_self true s a). exact Hg.
@@ -320,12 +330,11 @@ Section Evolve2.
   Lemma invS_init n : RInvS (init_st n).
   Proof. split; [apply inv_init|]. simpl. tauto. Qed.
 
-  Theorem step_invS s o : RInvS s -> RInvS (fst (step H ct true s o)).
+  Theorem step_invS s o : RInvS s -> RInvS (fst (step H ct late true s o)).
   Proof.
     intros [[Hs Hr] Hg]. split; [apply step_inv0; auto|].
     unfold step. pose proof (step_raw_evolves s o Hs) as Hev. pose proof (step_raw_gone s o Hs) as Hgo.
-    pose proof (step_raw_inv H ct s o Hs) as Hs2.
-    destruct (step_raw H ct true s o) as [s2 r]. simpl in *.
+    destruct (step_raw H ct late true s o) as [s2 r]. simpl in *.
     intros a Ha. apply filter_In in Ha as [Hseq Hor].
     destruct (memb a (reachable_set s2)) eqn:Em; [|exact Em]. simpl in Hor.
     apply memb_in in Hor. rewrite Hgo in Hor. exfalso.
@@ -333,8 +342,53 @@ Section Evolve2.
     assert (Hra : reach s a) by (eapply evolves_mono; eauto; apply reachable_reach; exact Em).
     specialize (Hg a Hor). rewrite (reach_reachable s a (inv_wf _ Hs) Hra) in Hg. discriminate.
   Qed.
-  Theorem run_invS l : forall s, RInvS s -> RInvS (run H ct true s l).
+  Theorem run_invS l : forall s, RInvS s -> RInvS (run H ct late true s l).
   Proof. induction l as [|o l IH]; simpl; auto. intros s Hs. apply IH. now apply step_invS. Qed.
+
+  (* ================= an operation that raises leaves the registry exactly as it was ================= *)
+  (* whichever operation raises - a replace() or dataclasses.replace rejected before anything was built (non-init
+     key, unknown key), or a constructor / dataclasses.replace / replace() / duplicate() whose class validates in its
+     own __post_init__ after the node (or, for duplicate, a number of copies) had been built and registered:
+     the variables are what they were, every existing node is what it was (the heap only grew), EVERY lookup returns
+     what it returned before, and none of the nodes built by the failed call can be reached *)
+  Lemma path_app hp ext a x : path hp a x -> path (hp ++ ext) a x.
+  Proof.
+    induction 1 as [a c E|a c k x E Hk Hp IH].
+    - eapply p_refl. rewrite nth_error_app1; eauto. apply nth_error_Some. congruence.
+    - eapply p_step; eauto. rewrite nth_error_app1; eauto. apply nth_error_Some. congruence.
+  Qed.
+
+  Theorem fail_frame s o s' e : RInv s -> step H ct late true s o = (s', Raised e) ->
+    (exists ext, heap s' = heap s ++ ext) /\ vars s' = vars s /\ (forall j, get_any s' j = get_any s j) /\
+    (forall x, length (heap s) <= x -> reachable s' x = false).
+  Proof.
+    intros [Hs Hr]. unfold step. pose proof (step_raw_inv H ct late s o Hs) as Hs2.
+    destruct (step_raw H ct late true s o) as [s2 r] eqn:Er. intros [= <- ->]. simpl in Hs2.
+    destruct (step_raw_raised H ct late _ _ _ _ Hs Er) as [[ext He] [Hv [Hg [Hsub Hsup]]]].
+    assert (Hun : forall x, length (heap s) <= x -> reachable s2 x = false).
+    { intros x Hx. apply unreachable_above with (n := length (heap s)); auto.
+      - exact (J_heap _ Hs2).
+      - unfold roots. rewrite Hv. exact (I_roots _ Hs). }
+    simpl. split; [eauto|]. split; [exact Hv|]. split; [|exact Hun].
+    intro j. unfold get_any. simpl. apply lookup_equiv.
+    - apply (I_fun _ Hs).
+    - apply filter_keys_nodup. apply (J_fun _ Hs2).
+    - intros i x. rewrite filter_In. simpl. split.
+      + intros [Hin Hm]. destruct (Hsup _ Hin) as [Hold|Hnew]; auto.
+        simpl in Hnew. change (reachable s2 x = true) in Hm. rewrite (Hun _ Hnew) in Hm. discriminate.
+      + intro Hin. split; [now apply Hsub|].
+        specialize (Hr _ _ Hin). apply reachable_reach in Hr. destruct Hr as [r [Hroot Hp]].
+        change (reachable s2 x = true). apply reach_reachable; [exact (J_heap _ Hs2)|].
+        exists r. split; [unfold roots in *; now rewrite Hv|]. rewrite He. now apply path_app.
+  Qed.
+
+  (* in particular every node that existed keeps its id and its registration - the original of a failed replace() too *)
+  Theorem fail_keeps_id s o s' e : RInv s -> step H ct late true s o = (s', Raised e) ->
+    forall a c, cell_at s a = Some c -> cell_at s' a = Some c /\ get_any s' (k_id c) = get_any s (k_id c).
+  Proof.
+    intros Hs Er a c Hc. destruct (fail_frame _ _ _ _ Hs Er) as [[ext He] [_ [Hl _]]]. split; auto.
+    unfold cell_at in *. rewrite He, nth_error_app1; auto. apply nth_error_Some. congruence.
+  Qed.
 End Evolve2.
 
 (* the registry holds exactly the referenced, not detached nodes *)
